@@ -8,7 +8,7 @@ From LV Require Import lib.Bytes model.Codec model.VecIndex spec.FcSpec model.Ab
   lib.WSumBft proofs.FcSpecFacts proofs.VecInv proofs.VecStep proofs.VecMain
   proofs.AbftFrame proofs.AbftCount proofs.AbftIds proofs.AbftBuild
   proofs.BftGraph proofs.BftMain proofs.BftRun proofs.BftFcSpec proofs.BftAccept
-  proofs.LinkVals proofs.LinkDefs proofs.LinkSim.
+  proofs.LinkVals proofs.LinkDefs proofs.LinkSim proofs.LinkRename.
 Import ListNotations.
 Local Open Scope N_scope.
 
@@ -242,6 +242,35 @@ Proof.
       elim (no_root_at_zero _ _ _ _ _ r HC Hin Hf). }
     assert (f = 0). { destruct (N.eq_dec f 0); auto. rewrite (B2 0) in Q0 by lia. discriminate. }
     subst f. reflexivity.
+Qed.
+
+(* Process: a claimed frame that the reference does not allow fails the check.  eR = the event as it was
+   offered (claimed frame a_frame x); the index holds the same event under an allowed frame (e) *)
+Lemma frame_check_rej (eR : fev) : fe eR = fe e -> a_frame x = ffr eR ->
+  r_frame_ok vals T0 (mk_node nv T0 eR) = false ->
+  exists fr, frame_pure es vals (l_idx st) (l_roots st) x true = Ok (nd_spf n, fr) /\ fr <> a_frame x.
+Proof.
+  intros Hfe Hfr FO. destruct new_spf as [SPF SP1]. destruct new_event_facts as (W0 & PK & EW & _).
+  destruct (frame_pure es vals (l_idx st) (l_roots st) x true) as [[spf fr]|err] eqn:FP.
+  2:{ exfalso. unfold frame_pure in FP. rewrite SPF in FP.
+      destruct (calc_pure _ _ _ _ _ _ _) eqn:CP; [discriminate|].
+      eapply calc_pure_fuel; [|exact CP]. pose proof (cnt_from_le (l_roots st) (nd_spf n)). lia. }
+  assert (spf = nd_spf n).
+  { unfold frame_pure in FP. rewrite SPF in FP. destruct (calc_pure _ _ _ _ _ _ _); inversion FP; reflexivity. }
+  subst spf. exists fr. split; [reflexivity|]. intros E. symmetry in E.
+  apply (frame_check_iff_allowed es vals (l_idx st) (l_roots st) x (nd_spf n) fr FP
+           (fun r Hr => no_root_at_zero _ _ _ _ _ r HC Hr) SP1) in E.
+  unfold allowed_pure in E. rewrite Hsp, Hfr in E.
+  destruct (fields_fr vals T0 e eR Hfe) as (_ & _ & Esp & Eh & Ef). fold n in Esp, Eh.
+  unfold r_frame_ok, frame_ok in FO. rewrite Eh, Esp, Ef, hassp_iff in FO.
+  destruct (self_parent (fe e)) as [sp|].
+  - destruct E as [L Q].
+    rewrite (climb_char T0 (mk_node nv T0 eR) (N.to_nat (ffr eR - nd_spf n)) (nd_spf n) (ffr eR)) in FO.
+    + apply andb_false_iff in FO as [F|F]; apply N.leb_gt in F; lia.
+    + exact L.
+    + intros h Hh. rewrite (qon_fr vals T0 e eR Hfe). fold n. rewrite <- new_qp. apply Q. exact Hh.
+    + left. lia.
+  - rewrite E in FO. discriminate.
 Qed.
 End NewEvent.
 
